@@ -25,6 +25,7 @@ PRIOR = ['zeros', 'chi2', 'signals', 'float32']
 
 def required(tier):
     b = {f'prior:{k}': 5 for k in PRIOR}
+    b['out-of-band-twice'] = 100
     b.update({f'bound:{k}': 5 for k in set(work_sig.BOUND_KINDS)})
     b.update({f'flags:{k}': 1 for k in range(16)})
     b.update({'sequence>=2': 20, 'outside-columns-exist': 50, 'cadence-injection-state': 50, 'derived-sibling-watched': 100, 'noise-estimate-vs-control-frame': 40})
@@ -139,7 +140,7 @@ def run_case(c, R):
         o = s['opts']
         R.bucket(f"flags:{sum(1 << k for k, n in enumerate(('integrate_path', 'integrate_t_profile', 'integrate_f_profile', 'doppler_smearing')) if o[n])}")
         ret, lo, hi, ref = inject_monitored(stg, fr, s, R, tag=q)
-        rets.append(ret)
+        rets.append(ret.copy())
         changed = changed or bool(np.any(ret != 0))
         # bounded == unbounded restricted to the range (fresh empty frame, fresh same-seed objects)
         if s['brange'] is not None and q == 0:
@@ -159,6 +160,26 @@ def run_case(c, R):
                 R.check(not bad.any(), 'bounded-differs-from-unbounded-restricted', nbad=int(bad.sum()), cols=[lo, hi],
                         maxerr=float(err.max()))
                 R.count('bounded_vs_unbounded_pixels', int(dec.sum()))
+        # the returned array is the caller's: accumulating into it (total = first; total += next) must not reach anything the
+        # library hands out later
+        ret += 3.25
+    # two injections that miss the band altogether, the caller writing into the first result in between
+    if c['_idx'] % 3 == 0:
+        R.bucket('out-of-band-twice')
+        fmin_ = float(fr.fs[0])
+        for rep in range(2):
+            d0 = fr.data.copy()
+            if rep == 0 or c['_idx'] % 2:
+                z = fr.add_signal(stg.constant_path(f_start=fmin_ - 50 * fr.df, drift_rate=0.0), stg.constant_t_profile(level=4.0),
+                                  stg.box_f_profile(width=2 * fr.df), stg.constant_bp_profile(level=1.0),
+                                  bounding_f_range=(fmin_ - 60 * fr.df, fmin_ - 40 * fr.df))
+            else:
+                z = fr.add_constant_signal(f_start=fmin_ - 50 * fr.df, drift_rate=0.0, level=4.0, width=2 * fr.df, f_profile_type='box')
+            R.check(isinstance(z, np.ndarray) and z.shape == tuple(fr.shape) and not np.any(z), 'out-of-band-injection-returns-nonzero',
+                    rep=rep, nonzero=int(np.count_nonzero(z)) if isinstance(z, np.ndarray) else -1)
+            R.check(np.array_equal(fr.data, d0), 'out-of-band-injection-changed-data', rep=rep)
+            if isinstance(z, np.ndarray) and z.shape == tuple(fr.shape):
+                z += 5.0
     if sib is not None:
         R.check(np.array_equal(sib.data, sib_before), 'injection-changed-a-frame-derived-earlier', changed=int((sib.data != sib_before).sum()))
         before_parent = fr.data.copy()
